@@ -4,7 +4,9 @@
 package main
 
 import (
+	"bytes"
 	"fmt"
+	"strings"
 	"math/big"
 
 	"github.com/btcsuite/btcd/btcec/v2"
@@ -48,6 +50,50 @@ type QiSpec struct {
 	TxChain  uint64   `json:"tx_chain"`
 	SigChain uint64   `json:"sig_chain"` // chain ID of the transaction the signature is made over
 	Compress bool     `json:"compress,omitempty"`
+	SameTx   bool     `json:"same_tx,omitempty"` // all consumed outputs belong to ONE previous transaction (indexes 0,1,..)
+}
+
+// qiPattern names the relation carried key / owner of every input without any key material:
+// "own" or "foreign", followed by "=j" when input j < i already carries the same key.
+func qiPattern(owners, carry [][]byte) (string, bool) {
+	var toks []string
+	all := true
+	for i := range carry {
+		t := "own"
+		if !bytes.Equal(carry[i], owners[i]) {
+			t, all = "foreign", false
+		}
+		for j := 0; j < i; j++ {
+			if bytes.Equal(carry[j], carry[i]) {
+				t += fmt.Sprintf("=%d", j)
+				break
+			}
+		}
+		toks = append(toks, t)
+	}
+	return strings.Join(toks, "_"), all
+}
+
+// qiPatternSpec: inputs owned by owners[i], carrying the public key of carry[i]; the carried keys sign
+// (in input order) exactly this transaction, so the ownership test alone decides.
+func qiPatternSpec(owners, carry [][]byte, dens []uint8, outs []QiOut, path string, checkSig, sameTx bool) *Spec {
+	pat, all := qiPattern(owners, carry)
+	expect := "refuse"
+	if all {
+		expect = "accept"
+	}
+	variant := "keys-" + pat
+	if !checkSig {
+		variant += "-unchecked"
+	}
+	if sameTx {
+		variant += "-one-prev-tx"
+	}
+	q := &QiSpec{Variant: variant, Path: path, CheckSig: checkSig, Expect: expect,
+		Owners: append([][]byte(nil), owners...), Dens: append([]uint8(nil), dens...),
+		Carry: append([][]byte(nil), carry...), Signers: append([][]byte(nil), carry...),
+		Outs: outs, TxChain: 9000, SigChain: 9000, SameTx: sameTx}
+	return &Spec{Kind: "qi", Qi: q, Note: variant}
 }
 
 type qkey struct {
@@ -195,7 +241,11 @@ func (x *runner) runQi(s *Spec) string {
 	for i := range q.Owners {
 		owner := mkQKey(q.Owners[i])
 		ent := &types.UtxoEntry{Denomination: q.Dens[i], Address: owner.addr, Lock: big.NewInt(0)}
-		if err := rawdb.CreateUTXO(db, hashN(byte(i+1)), 0, ent); err != nil {
+		op := types.OutPoint{TxHash: hashN(byte(i + 1)), Index: 0}
+		if q.SameTx {
+			op = types.OutPoint{TxHash: hashN(1), Index: uint16(i)}
+		}
+		if err := rawdb.CreateUTXO(db, op.TxHash, op.Index, ent); err != nil {
 			panic(err)
 		}
 		c := mkQKey(q.Carry[i])
@@ -204,7 +254,7 @@ func (x *runner) runQi(s *Spec) string {
 		if q.Compress {
 			pk = c.priv.PubKey().SerializeCompressed()
 		}
-		ins = append(ins, types.TxIn{PreviousOutPoint: types.OutPoint{TxHash: hashN(byte(i + 1)), Index: 0}, PubKey: pk})
+		ins = append(ins, types.TxIn{PreviousOutPoint: op, PubKey: pk})
 	}
 	mk := func(chain uint64, outs []QiOut, data []byte, sig *schnorr.Signature) *types.Transaction {
 		return types.NewTx(&types.QiTx{ChainID: new(big.Int).SetUint64(chain), TxIn: ins, TxOut: qiOuts(outs), Data: data, Signature: sig})
@@ -257,6 +307,7 @@ func (x *runner) runQi(s *Spec) string {
 		}
 	}
 
+	cs := q.CheckSig || q.Path == "pool"
 	accepted := false
 	func() {
 		defer func() {
@@ -283,6 +334,30 @@ func (x *runner) runQi(s *Spec) string {
 		}
 	}()
 	x.rep.Count(fmt.Sprintf("qi/%s/%s/accepted=%v", q.Path, q.Variant, accepted))
+	// the property itself, whatever the variant: accepted => EVERY input carries the key that owns the
+	// entry THAT input consumes (spec level: same private key), and - where the signature is looked at -
+	// the signature verifies under the (aggregated) key of exactly the carried keys over this transaction
+	if accepted {
+		how := q.Path
+		if !cs {
+			how += "-unchecked"
+		}
+		for i := range q.Owners {
+			if !bytes.Equal(q.Owners[i], q.Carry[i]) {
+				rep := "first-use-of-the-key"
+				for j := 0; j < i; j++ {
+					if bytes.Equal(q.Carry[j], q.Carry[i]) {
+						rep = "key-already-used-by-an-earlier-input"
+					}
+				}
+				x.fail("qi/accepted-input-not-owned/"+rep+"/"+how, fmt.Sprintf("a Qi spend was accepted although input %d of %d consumes an entry not owned by the key it carries (%s)", i, len(ins), q.Variant), s)
+				break
+			}
+		}
+		if cs && !sigbit {
+			x.fail("qi/accepted-bad-signature/"+how, "a Qi spend was accepted with a signature that does not verify under the key(s) carried by its inputs ("+q.Variant+")", s)
+		}
+	}
 	switch q.Expect {
 	case "accept":
 		if !accepted {
@@ -294,7 +369,6 @@ func (x *runner) runQi(s *Spec) string {
 		}
 	}
 	x.rep.Nontrivial(fmt.Sprintf("qi/%s/%s/%d/%v", q.Path, q.Variant, len(ins), accepted))
-	cs := q.CheckSig || q.Path == "pool"
 	f := fmt.Sprintf("(mkQi %d [] [] [])", q.TxChain)
 	return fmt.Sprintf("CQi %d %s %s %s %s %s %s true %s", s.ID, nodeChain.String(), hlib.CoqBool(cs), f,
 		hlib.CoqList(items), hlib.CoqBool(aggOK), hlib.CoqBool(sigbit), hlib.CoqBool(accepted))
